@@ -27,6 +27,7 @@ import (
 
 	"connectrpc.com/conformance/internal"
 	conformancev1 "connectrpc.com/conformance/internal/gen/proto/go/connectrpc/conformance/v1"
+	"connectrpc.com/conformance/internal/tracer"
 	"connectrpc.com/conformance/internal/verifkit"
 	"golang.org/x/net/http2"
 	"google.golang.org/protobuf/proto"
@@ -569,11 +570,13 @@ type vfBBCase struct {
 	// Bidi: the request is a (half-duplex) call of the BidiStream procedure with a streaming content type;
 	// over HTTP/1.1 the server has to special-case it for the RPC library, which must not disturb the checks
 	Bidi bool `json:"bidi"`
+	// Traced: the server was started with an HTTP tracer (every request body is wrapped by the tracing middleware)
+	Traced bool `json:"traced,omitempty"`
 }
 
 var (
 	vfBBOnce sync.Once
-	vfBBSrv  [2]*vfRefServer
+	vfBBSrv  [4]*vfRefServer
 	vfBBCli  [2]*http.Client
 	vfBBErr  error
 	vfBBSeq  atomic.Int64
@@ -583,6 +586,10 @@ func vfBBEnsure() error {
 	vfBBOnce.Do(func() {
 		for i, v := range []conformancev1.HTTPVersion{conformancev1.HTTPVersion_HTTP_VERSION_1, conformancev1.HTTPVersion_HTTP_VERSION_2} {
 			vfBBSrv[i], vfBBErr = vfStartRefServer(v)
+			if vfBBErr != nil {
+				return
+			}
+			vfBBSrv[2+i], vfBBErr = vfStartRefServerTraced(&conformancev1.ServerCompatRequest{Protocol: conformancev1.Protocol_PROTOCOL_CONNECT, HttpVersion: v}, &tracer.Tracer{})
 			if vfBBErr != nil {
 				return
 			}
@@ -605,6 +612,9 @@ func vfBBCheck(c vfBBCase) error {
 		idx, version = 1, 2
 	}
 	srv := vfBBSrv[idx]
+	if c.Traced {
+		srv = vfBBSrv[2+idx]
+	}
 	name := fmt.Sprintf("verif/c12bb/%d", vfBBSeq.Add(1))
 	actual := vfSetup{Version: version, Protocol: 1, Codec: c.Actual.Codec, Compression: 1, Get: c.Actual.Get, ImplicitID: c.Actual.ImplicitID}
 	msg := &conformancev1.UnaryRequest{RequestData: []byte("bb")}
@@ -763,7 +773,7 @@ func TestVerifC12BlackBox(t *testing.T) {
 	setups := vfAllSetups()
 	verifkit.Run(t, "C12BlackBox", verifkit.Spec[vfBBCase]{
 		Gen: func(t *rapid.T) vfBBCase {
-			c := vfBBCase{H2: rapid.Bool().Draw(t, "h2")}
+			c := vfBBCase{H2: rapid.Bool().Draw(t, "h2"), Traced: rapid.IntRange(0, 3).Draw(t, "traced") == 0}
 			c.Actual = vfSetup{Codec: rapid.IntRange(1, 2).Draw(t, "codec"), Get: rapid.Bool().Draw(t, "get"), ImplicitID: rapid.Bool().Draw(t, "implicit")}
 			c.Bidi = rapid.IntRange(0, 3).Draw(t, "bidi") == 0
 			if c.Bidi {
@@ -797,6 +807,9 @@ func TestVerifC12BlackBox(t *testing.T) {
 			cl := []string{fmt.Sprintf("mismatching-aspects:%d", n)}
 			if c.Bidi {
 				cl = append(cl, fmt.Sprintf("bidi-over-http%d", version))
+			}
+			if c.Traced {
+				cl = append(cl, "traced-server")
 			}
 			return cl, n == 1 || n == 2 || c.Timeout != "" || c.Bidi
 		},
